@@ -1,11 +1,14 @@
 #!/bin/sh
-# tools/mut.sh <file under giscanner/> <old> <new> <check-id> [scale] [lines]   -- apply a one-off mutation to a scratch copy and run a check
+# tools/mut.sh <file relative to repo> <old> <new> <check-id> [scale] [lines]
+# applies a one-off mutation to a scratch copy (giscanner/ and girepository/ copied, rest symlinked) and runs a check
 set -e
-rm -rf /tmp/mut && mkdir -p /tmp/mut && cp -r /repo/giscanner /tmp/mut/ 
-/venv/bin/python - "$1" "$2" "$3" <<'PY'
+rm -rf /tmp/mut && mkdir -p /tmp/mut
+for e in /repo/*; do b=$(basename $e); case $b in giscanner|girepository|tools) cp -r $e /tmp/mut/$b;; *) ln -s $e /tmp/mut/$b;; esac; done
+case "$1" in */*) f="$1";; *) f="giscanner/$1";; esac
+/venv/bin/python - "$f" "$2" "$3" <<'PY'
 import sys
 f,old,new=sys.argv[1:4]
-p='/tmp/mut/giscanner/'+f
+p='/tmp/mut/'+f
 s=open(p).read()
 assert old in s, 'MUTATION DID NOT APPLY'
 open(p,'w').write(s.replace(old,new,1))
